@@ -236,6 +236,57 @@ def work_fixed(case):
     return {"id": case["id"], "res": res}
 
 
+def work_fixed_items(case):
+    res = []
+    for lay in case["layouts"]:
+        pre = [fixed_line("", case["before"])] if case["before"] else []
+        post = [fixed_line("", case["after"])] if case["after"] else []
+        full = "\n".join(pre + lay["lines"] + post) + "\n"
+        r = {}
+        try:
+            mode, items = read_items(full)
+            r["mode"] = mode
+            sh, n = len(pre), len(lay["lines"])
+            r["items"] = [(k, t, lb, nm, f - sh, l - sh) for (k, t, lb, nm, f, l) in items if sh < f <= sh + n]
+        except BaseException as e:  # noqa: BLE001
+            if isinstance(e, KeyboardInterrupt):
+                raise
+            r["items_err"] = "%s: %s" % (type(e).__name__, str(e)[:100])
+        res.append(r)
+    return {"id": case["id"], "res": res}
+
+
+def check_fixed_items(chk, cases):
+    """C12 in fixed form: the items of the real reader over every FixedForm.tla layout against the ground truth of the layout."""
+    res = pmap(work_fixed_items, [{k: c[k] for k in ("id", "before", "after", "layouts")} for c in cases], timeout=600)
+    for c, r in zip(cases, res):
+        if "__timeout__" in r or "__died__" in r:
+            chk.violation({"clause": "no-result", "form": "fixed"}, "C12: no result for fixed-form layouts of %s" % c["set"], {"set": c["set"], "form": "fixed"})
+            continue
+        for lay, x in zip(c["layouts"], r["res"]):
+            chk.count()
+            chk.cov["traces_validated_against_impl"] += 1
+            src = "\n".join(lay["lines"]) + "\n"
+            chk.distinct("fixed:" + src)
+            rp = {"set": c["set"], "lines": lay["lines"], "form": "fixed"}
+            got = x.get("items")
+            if got is None:
+                chk.violation({"clause": "reader-raised", "set": c["set"], "form": "fixed"}, "C12: reader raised %s on\n%s" % (x.get("items_err"), src), rp)
+                continue
+            got = [tuple(g) for g in got]
+            exp = [(k, squeeze(t) if k == "c" else t, lb, nm, f, l) for (k, t, lb, nm, f, l) in truth_items(c["stmts"], lay)]
+            if x.get("mode") != "fix":
+                chk.violation({"clause": "not-read-as-fixed", "set": c["set"]}, "C12: mode %s for fixed-form text\n%s" % (x.get("mode"), src), rp)
+            elif got != exp:
+                k = next((i for i, (a, b) in enumerate(zip(got, exp)) if a != b), min(len(got), len(exp)))
+                what = "span" if k < len(got) and k < len(exp) and got[k][:4] == exp[k][:4] else "item"
+                chk.violation({"clause": "items-differ", "what": what, "set": c["set"], "form": "fixed"},
+                              "C12: fixed-form reader items differ at %d: got %s expected %s\n%s" % (k, got[k] if k < len(got) else None, exp[k] if k < len(exp) else None, src),
+                              dict(rp, expected=exp, got=got))
+    for c in cases[:: max(1, len(cases) // 2)][:2]:
+        chk.sample({"statement_set": c["set"], "fixed_form_layout": c["layouts"][len(c["layouts"]) // 2]["lines"]})
+
+
 def run_fixed(chk, tier, replay_set=None):
     layouts.gen_tla(os.path.join(common.SPECS, "SourceForm_gen.tla"))
     sets = [s for s in layouts.SETS if replay_set is None or s[0] == replay_set]
@@ -321,8 +372,10 @@ def run(prop, tier=None, replay=None):
     chk = Check(prop, "model_checking", tier)
     tier = chk.tier
     rset = None
+    rform = None
     if replay:
         rset = json.load(open(replay))["replay"].get("set")
+        rform = json.load(open(replay))["replay"].get("form")
     if prop == "C05":
         cases = run_fixed(chk, tier, rset)
         chk.phase("generate")
@@ -336,11 +389,15 @@ def run(prop, tier=None, replay=None):
                            "between x label adjustment x trailing comment); whole generated programs rendered in fixed form with three wrap widths; distinct_nontrivial = distinct texts")
         chk.assumptions = ["Decode in FixedForm.tla is the statement of F2008 3.3.3", "no physical line ends in a significant blank (class restriction, DESIGN.md 4.3)"]
         return chk.finish()
-    if prop in ("C04", "C12"):
+    if prop in ("C04", "C12") and rform != "fixed":
         cases = run_free(chk, prop, tier, rset)
         chk.phase("generate")
         check_free(chk, prop, cases)
         chk.phase("replay-statement-layouts")
+    if prop == "C12" and (not replay or rform == "fixed"):
+        # the same law in fixed form: every layout of FixedForm.tla, the reader's items against the layout's ground truth
+        check_fixed_items(chk, run_fixed(chk, tier, rset))
+        chk.phase("replay-fixed-form-layouts")
     if prop == "C04" and not replay:
         program_layouts(chk, tier)
         chk.phase("replay-program-layouts")
@@ -348,7 +405,7 @@ def run(prop, tier=None, replay=None):
         reader_walks(chk, tier)
         chk.phase("replay-walks")
     chk.cov["exhaustive"] = tier != "quick" and not chk.cov.get("layout_sets_sampled")
-    chk.cov["rule"] = ("layouts = behaviours of FreeForm.tla for 12 statement sets (every break position incl. inside tokens and character literals x leading & x trailing comment x "
+    chk.cov["rule"] = ("(C12 also: the layouts of FixedForm.tla for the same sets, reader items against their ground truth) layouts = behaviours of FreeForm.tla for 12 statement sets (every break position incl. inside tokens and character literals x leading & x trailing comment x "
                        "intervening blank/comment lines x optional blanks x ';' joins, bounded by MaxBreaks/MaxExtras); quick replays a stride sample of at most 900 per set; "
                        "distinct_nontrivial = distinct physical texts")
     chk.assumptions = ["Decode in FreeForm.tla is the statement of F2008 3.3.2; TLC checks it inverts every generated layout"]
@@ -366,6 +423,9 @@ def program_layouts(chk, tier):
         base = render.free_text(stmts)
         lay = perturb.layout(b["out"], b["ed"])
         src = perturb.text_of(lay)
+        if not render.free_form_evident(src):
+            chk.cov["layouts_without_free_form_evidence_skipped"] = chk.cov.get("layouts_without_free_form_evidence_skipped", 0) + 1
+            continue
         cases.append({"id": b["id"], "beh": b, "jobs": [dict(name="P", src=base, std="f2008", ic=True), dict(name="L", src=src, std="f2008", ic=True),
                                                            dict(name="Lk", src=src, std="f2008", ic=False)]})
     res = pmap(obs.run_jobs, [{"id": c["id"], "jobs": c["jobs"]} for c in cases], timeout=120, batch=16)
@@ -661,6 +721,24 @@ def work_progfixed(case):
             mode = "error"
         o, t = fp.parse(fp.create("f2008"), src, ignore_comments=True)
         out[name] = {"mode": mode, "o": o, "sci": fp.struct(t, ci=True) if t is not None else None}
+        if name in case.get("files", ()):
+            # the same text in a FILE behind a long header of comment lines (a licence text of 150 lines): the detector works on the
+            # file there; mode and tree have to be those of the text alone
+            import tempfile
+            head = "".join("%s %s\n" % ("!" if name == "free" else "C*c!"[case["id"] % 4], ("line %3d of a long header " % i) * 4) for i in range(150))
+            with tempfile.TemporaryDirectory() as tmpd:
+                fn = os.path.join(tmpd, "prog.src")
+                with open(fn, "w") as f:
+                    f.write(head + src)
+                try:
+                    rd = fp.FortranFileReader(fn, ignore_comments=True)
+                    fmode = rd.format.mode
+                    o3, t3 = fp.parse(fp.create("f2008"), rd)
+                except BaseException as e:  # noqa: BLE001
+                    if isinstance(e, KeyboardInterrupt):
+                        raise
+                    fmode, o3, t3 = "error", fp.outcome_of_exception(e), None
+            out[name]["file"] = {"mode": fmode, "o": o3, "sci": fp.struct(t3, ci=True) if t3 is not None else None}
         # with comments kept: the interleaving of statements and comments (kinds only; the comment texts differ by style)
         o2, t2 = fp.parse(fp.create("f2008"), src, ignore_comments=False)
         out[name]["o_keep"] = o2
@@ -695,7 +773,8 @@ def program_fixed(chk, tier):
         for name, src in srcs.items():
             if name != "free":
                 kinds[name] = fixed_kinds(src)
-        cases.append({"id": p["id"], "srcs": srcs, "kinds": kinds})
+        files = [n for n in srcs if n != "tab"] if p["id"] % (5 if tier == "quick" else 2) == 0 else []
+        cases.append({"id": p["id"], "srcs": srcs, "kinds": kinds, "files": files})
     res = pmap(work_progfixed, cases, timeout=300)
     for c, r in zip(cases, res):
         if "__timeout__" in r or "__died__" in r:
@@ -706,6 +785,13 @@ def program_fixed(chk, tier):
         if free["mode"] != "free":
             chk.violation({"clause": "free-not-detected-as-free"}, "C05: a free-form program starting in column 1 is detected as %s:\n%s" % (free["mode"], c["srcs"]["free"][:400]), {"srcs": c["srcs"]})
         for name, x in r["out"].items():
+            if "file" in x:
+                chk.count()
+                fx = x["file"]
+                if fx["mode"] != x["mode"] or fx["o"]["res"] != x["o"]["res"] or fx["sci"] != x["sci"]:
+                    chk.violation({"clause": "file-behind-long-header-differs", "level": "program", "which": "free" if name == "free" else "fixed"},
+                                  "C05: the %s text read from a file behind 150 comment lines: mode %s, %s (the text alone: mode %s, %s):\n%s" % (
+                                      name, fx["mode"], fx["o"], x["mode"], x["o"]["res"], c["srcs"][name][:500]), {"srcs": c["srcs"], "which": name, "file": True})
             if name == "free":
                 continue
             chk.distinct(c["srcs"][name])
